@@ -22,10 +22,12 @@ where
 
         if from < stored_len {
             let stored_to = to.min(stored_len);
-            let reader = self.create_reader();
+            // Lock order: page index before mmap (the writer holds the page index while it
+            // writes through the mmap; the other order deadlocks once a file grower queues).
             #[cfg(anydb_verif)]
             rawdb::verif::lock_rw("pages", rawdb::verif::LockMode::Read, &self.pages);
             let pages = self.pages.read();
+            let reader = self.create_reader();
             Self::read_stored_pages_into(&reader, &pages, from, stored_to, buf);
         }
 
